@@ -28,14 +28,14 @@ CLAIMS = {
   technique="contract-based deductive verification (SMT) + whole-program SSA write-frame obligation",
   design_ref="§6 C10"),
  "C14": dict(
-  category="other",
-  text="Frame proof only: over the 336-function reach of NewTransform/Read/RawRecord (plus reflection callees and callbacks) no store goes into a schema-owned struct except initialising an object the storing function allocated, no package-level variable is assigned, and the address of a package-level variable is passed only to sync/atomic and sync.Pool methods. This decides the sharing discipline the property rests on; it does not explore interleavings.",
+  category="proof",
+  text="Frame obligations plus the SMT-proved isolation of the shared JavaScript VM pool (execProgram: every pre-existing VM is left with the globals it had). Over the 336-function reach of NewTransform/Read/RawRecord (plus reflection callees and callbacks) no store goes into a schema-owned struct except initialising an object the storing function allocated, no package-level variable is assigned, and the address of a package-level variable is passed only to sync/atomic and sync.Pool methods. This decides the sharing discipline the property rests on; it does not explore interleavings.",
   note="Assumed: thread-safety of sync.Pool, sync/atomic, hashicorp LRU; *goja.Program, *xpath.Expr (cloned per query) and *regexp.Regexp are safe to share; Go memory model for publishing the Schema; one transformctx.Ctx per Transform (NewTransform writes Ctx.InputName/CtxAwareErr). Data races inside dependencies are invisible to this check. Concurrency itself is outside what contract-based sequential verification decides.",
   technique="contract-style write-frame obligations decided by SSA footprint analysis (no SMT)",
   design_ref="§6 C14"),
  "C15": dict(
-  category="other",
-  text="Frame proof only: the hidden inputs (node IDs, random declaration hashes) are read only where cache keys are built, no clock/random/uuid.New call is reachable from Read except the excluded `now`, and map iteration occurs only in two reviewed order-insensitive loops. Together with cache transparency (C13) this makes results a function of (schema, input, externals).",
+  category="proof",
+  text="Frame obligations plus SMT-proved pool transparency (reset/CreateNode: a node from the pool is indistinguishable from a new one; execProgram: a pooled VM is pristine again after every call, so results do not depend on earlier transforms in the process). The hidden inputs (node IDs, random declaration hashes) are read only where cache keys are built, no clock/random/uuid.New call is reachable from Read except the excluded `now`, and map iteration occurs only in two reviewed order-insensitive loops. Together with cache transparency (C13) this makes results a function of (schema, input, externals).",
   note="Assumed: json.Marshal sorts map keys; MD5/UUIDv3 collision-freeness for 'checksums differ when values differ'; a dependency consulting hidden state (goja Math.random is excluded by the statement) is invisible. Cross-process equality is the paper corollary.",
   technique="contract-style read-frame obligations decided by SSA footprint analysis (no SMT)",
   design_ref="§6 C15"),
@@ -51,6 +51,24 @@ CLAIMS = {
   note="Assumed: LRU Get(k) returns what the loader returned for k in this or an earlier call (eviction only turns hits into misses); xpath.Compile and goja.Compile are functions of their source text; the linking axioms 'JSProgramCache/NodeToJSONCache are only loaded by getProgram/getNodeJSON loaders'; sync.Pool as in C12. The JavaScript VM pool (globals restored after each run) is decided under C20; the transform-result cache key soundness (node ID + declaration hash determine the value) under C02.",
   technique="contract-based deductive verification: one cache-free postcondition per function, both paths, SMT",
   design_ref="§6 C13"),
+ "C04": dict(
+  category="proof",
+  text="Soundness direction of streaming selection, proved for all token sequences over the real XML and JSON stream readers (every function of both readers is under contract: streamCandidateCheck, wrapUpCurAndTargetCheck, add*Child, parseDelim/parseVal, parse, Read, Release): a node is delivered only if it is the current candidate, at its own end token, and the filter expression selects THAT node (wrapUp#ensures:itself, which failed on the original code: defect F5, repaired); a candidate is set only when none is pending and only to the open node (outermost wins); a rejected candidate is removed from the tree before its handle is dropped; Read releases the previously delivered node before parsing on and starts parsing with no pending candidate; the open path survives every release (ghost open-path + acquisition time stamps); Read returns exactly one of (node, nil) / (nil, err).",
+  note="The xpath engine is an uninterpreted selection relation selects(root, expr, x); MatchAny/MatchNode are trusted wrappers of it. NOT decided: the completeness direction (no matching node is skipped, document order) and the refinement between the pruned incremental tree and the whole document; the position of the candidate test relative to attribute construction inside XML parse; removeLastFilterInXPath and the constructors are not yet under contract (two seeded changes in those are missed, see DESIGN.md). JSON decoder grammar (keys are strings) is assumed; decoder nesting depth is an assumed ghost of encoding/xml.",
+  technique="contract-based deductive verification: quantified reader invariants with ghost open-path state, loop invariants, SMT",
+  design_ref="§6 C04"),
+ "C17": dict(
+  category="proof",
+  text="Release discipline of the XML/JSON stream readers and the ingester, proved for all call histories: Read releases the previously delivered target (its node object carries a newer ID afterwards: #ensures:releasePrev) and clears the handle before any parsing; Release clears the handle and releases the node; a rejected candidate is removed before the handle is dropped (wrapUp#ensures:rejected); the ingester keeps hold of every node the reader handed it, also when the transform of that record fails (ingester.Read#ensures:held), and releases it at the next Read. RemoveAndReleaseTree leaves every surviving node untouched except the links that pointed at the removed node.",
+  note="The size bound over unbounded histories is the paper corollary of these per-call contracts. Known limitation recorded in DESIGN.md (F9): XML character data between records is attached to the enclosing element and is never removed; not yet expressed as an obligation. Hierarchy/EDI/fixed-length readers are not yet under contract for this property.",
+  technique="contract-based deductive verification (SMT), ghost acquisition IDs",
+  design_ref="§6 C17"),
+ "C20": dict(
+  category="proof",
+  text="Proved over the real execProgram (both argument loops over a Go map carry invariants over the set of visited keys, the deferred clean-up closure is inlined): a call runs on a VM whose globals are the pristine table plus its own arguments, and on return every VM that existed before has exactly the globals it had before, on the normal and on the error path; a pooled VM goes back only in pristine state (precondition of sync.Pool.Put, which failed on the original code: defect F14, repaired, solver-independent replay confirmed). JavaScriptWithContext: odd argument count and non-string argument names are errors, never panics (defect F3, repaired, replay confirmed); NaN/Infinity/null/undefined results are errors, otherwise the exported value is returned. The node-JSON cache is keyed by the node's acquisition ID (call-site assertion). `_node` equals the node's present JSON fails on the cached path: known finding F8.",
+  note="Assumed (specs/extern/goja.gvc): goja's abstract global table (Set/Get/Delete/GlobalObject), RunProgram does not assign globals for scripts in the statement's scope, Compile is a function of the source, Export/IsNaN/... as named; sync.Pool returns New() or a pooled VM. Concurrent mixes rest on C14's assumptions.",
+  technique="contract-based deductive verification: map-iteration loop invariants with visited-set ghost, SMT; replay through in-package overlay tests",
+  design_ref="§6 C20"),
 }
 
 NOT_BUILT = "check not built yet in this session (planned, see DESIGN.md §6); not claimed until its obligations discharge on the unchanged tree"
